@@ -53,6 +53,17 @@ def run_panel(case, want_targets=None):
             for s, g in mj["states"]:
                 if g["k"] != "disc":
                     init[s] = [Fr(int(Fr(g["a"])) + r.randint(-1, 3)) for _ in range(n)]
+    if case.get("starved") and "init" not in case and n > 1:
+        # "starved" agents: supported model, but an off-grid agent far below the grid of a continuous state that bounds the
+        # choices from above (`choices <= state + slack`): every option of such an agent is infeasible (value -inf). The frame
+        # still reports choices for it, and its states still follow the law of motion at those reported choices.
+        bound_states = sorted({a for f in mj["functions"] if f["name"].endswith("_constraint") and f["name"] != "lower_constraint"
+                               for a in f["args"] if a in dict(mj["states"]) and dict(mj["states"])[a]["k"] == "lin"})
+        if bound_states:
+            for j in r.sample(range(n), k=min(2, n - 1)):
+                for sname in bound_states:
+                    init[sname][j] = Fr(dict(mj["states"])[sname]["a"]) - 16 - j
+            info["starved"] = True
     info["init"] = init
     seed = case.get("sim_seed", r.randint(0, 10_000))
     info["sim_seed"] = seed
@@ -103,6 +114,8 @@ def base_out(info, case):
     h[f"flat_choices={len(meta.get('flat') or [])}"] = 1
     h[f"lower_bound={bool(meta.get('lower_bound'))}"] = 1
     h[f"int_init={bool(case.get('int_init'))}"] = 1
+    if info.get("starved"):
+        h["starved_agents"] = 1
     from pipeline import wf_hist
 
     wf_hist(mj, h)
